@@ -205,7 +205,7 @@ def parse_operand(s):
         return ('move', parse_place(s[5:]))
     if s.startswith('const '):
         return ('const', s[6:])
-    if re.match(r'^[\w<]', s) and '::' in s:
+    if (re.match(r'^[\w<]', s) and '::' in s) or re.match(r'^[a-zA-Z_]\w*$', s):
         return ('fnitem', s)
     raise MirError('operand? ' + s)
 
